@@ -59,6 +59,8 @@ def doRun (st : McSt) (ws : List String) (fromStates : Bool) : McSt × List Stri
     | some (.err msg e, tot) =>
       (s!"err:{if msg.startsWith "nothing left" then "deadend" else msg}", tot.evald, tot.collected, tot.statuses, some e)
     | some (.panic _, tot) => ("panic", tot.evald, tot.collected, tot.statuses, none)
+  -- `ExecutionMode::Default` (token `xmode=default`): no status counters are kept; nothing else depends on the mode
+  let stt := if kv ws "xmode" == "default" then [] else stt
   let refOut : List String × List Sys :=
     if !st.refenum then ([], []) else
       -- (a) the contract-conforming reference variant of the model checker (no D1); a staged run starts from the states the
